@@ -53,10 +53,13 @@ func restartCase(rt *rapid.T, prop string, levels []byte, pointLimit int) {
 			n.checkAdoption(pend)
 			n.checkContinuation(pend)
 			// more generations for a share of the stop points
-			gens := rapid.SampledFrom([]int{0, 0, 0, 1, 1, 2}).Draw(rt, "moreGenerations")
+			gens := rapid.SampledFrom([]int{0, 0, 1, 1, 2}).Draw(rt, "moreGenerations")
 			for g := 0; g < gens; g++ {
-				for i := 0; i < rapid.IntRange(0, 4).Draw(rt, "between"); i++ {
-					switch rapid.IntRange(0, 3).Draw(rt, "act") {
+				for i := 0; i < rapid.IntRange(0, 6).Draw(rt, "between"); i++ {
+					switch rapid.IntRange(0, 5).Draw(rt, "act") {
+					case 4, 5:
+						n.App.Step()
+						n.releaseKind(rt)
 					case 0:
 						n.pub(levels[rapid.IntRange(0, len(levels)-1).Draw(rt, "level")], false)
 					case 1:
